@@ -11,7 +11,7 @@ import z3
 # ------------------------------------------------------------------------------ MIR parsing
 
 class Fn:
-    __slots__ = ('name', 'sig', 'params', 'ret', 'locals', 'blocks', 'impl_at', 'cblocks')
+    __slots__ = ('name', 'sig', 'params', 'ret', 'locals', 'blocks', 'impl_at', 'cblocks', 'root')
 
     def __init__(self, name, sig):
         self.name = name
@@ -22,6 +22,7 @@ class Fn:
         self.blocks = {}
         self.impl_at = None
         self.cblocks = {}     # compiled blocks cache
+        self.root = None
 
 
 def split_top(s, sep=','):
@@ -706,16 +707,22 @@ class Exec:
     def impl_type(self, f):
         if f.impl_at is None:
             return None
-        key = f.impl_at
+        key = (f.impl_at, getattr(f, 'root', None))
         if key in self.src_cache:
             return self.src_cache[key]
-        path = os.path.join(self.src_root, f.impl_at[0])
-        try:
-            lines = open(path).read().split('\n')
-            l = lines[f.impl_at[1] - 1][f.impl_at[2] - 1:]
-        except Exception:
-            lines = []
-            l = ''
+        lines, l = [], ''
+        roots = [self.src_root] + list(getattr(self, 'extra_roots', []))
+        if getattr(f, 'root', None):
+            roots = [f.root] + roots
+        for root in roots:
+            path = os.path.join(root, f.impl_at[0])
+            try:
+                lines = open(path).read().split('\n')
+                l = lines[f.impl_at[1] - 1][f.impl_at[2] - 1:]
+                if re.match(r'impl\b|\w', l):
+                    break
+            except Exception:
+                lines, l = [], ''
         r = None
         m = re.match(r'impl(?:<[^>]*>)?\s+(?:([\w:<>, \[\];&\'()]+?)\s+for\s+)?(\[[^\]]*\]|\([^)]*\)|[\w:]+)', l)
         if m:
@@ -1197,10 +1204,12 @@ class Exec:
                 return self.transmute_const(int(m.group(1), 16), m.group(2))
         m = re.match(r'^(.*)::(\w+)$', txt)
         if m and '(' not in txt:
-            tyl = re.sub(r'<.*$', '', m.group(1)).split('::')[-1]
+            tyl = re.sub(r'(::)?<.*$', '', m.group(1)).split('::')[-1]
             info = self.enum_info.get(tyl)
             if info is not None and m.group(2) in info:
                 return Agg(tyl, {}, info[m.group(2)])
+            if tyl in ('Option', 'Ordering') and m.group(2) in ('None', 'Less', 'Equal', 'Greater'):
+                return self.mk_variant(m.group(1), m.group(2), {})
         r = self.named_const(txt, f)
         if r is not None:
             return r
@@ -1264,6 +1273,8 @@ class Exec:
             return clone_val(v) if isinstance(v, (Agg, ListV, MapV)) or hasattr(v, 'mirx_clone') else v
         if txt.startswith('const '):
             return self.const(f, txt[6:])
+        if re.match(r'^[<\w].*::\w+(::<.*>)?$', txt):
+            return Opaque('fn {' + txt + '}')          # a function item used as a value (e.g. passed to Option::map)
         raise Unsupported('operand: ' + txt)
 
     def stmt(self, f, loc, s):
